@@ -83,6 +83,8 @@ def value_of(model, vs):
         return ("fn", vs["v"])
     if t == "bomb":
         return ("bomb", vs["v"])
+    if t == "frame":
+        return ("frame", tuple(vs["v"]))
     if t == "list":
         return list(vs["v"])
     if t == "tuple":
